@@ -399,9 +399,9 @@ def run(ctx: Ctx) -> RuleResult:
         elif t == 'pickle.load':
             st = enclosing_stmt(c)
             tgt = st.targets[0].id if isinstance(st, ast.Assign) and isinstance(st.targets[0], ast.Name) else ''
-            used_in_verify = any(isinstance(v, ast.Call) and norm(v.func) == 'verify_used_files' and v.args and norm(v.args[0]) == tgt
-                                 for v in ast.walk(the_try))
-            used_in_load = load.args and norm(load.args[0]) == tgt
+            used_in_verify = any(isinstance(v, ast.Call) and norm(v.func) == 'verify_used_files' and v.args
+                                 and ((tgt and norm(v.args[0]) == tgt) or v.args[0] is c) for v in ast.walk(the_try))
+            used_in_load = load.args and ((tgt and norm(load.args[0]) == tgt) or load.args[0] is c)
             rorder.append('used_files' if used_in_verify else 'data' if used_in_load else '?')
     ok = worder == ['header', 'used_files', 'data'] and rorder == worder
     res.ob(site, 'w: writer records %s, reader records %s' % (worder, rorder), ok)
